@@ -249,7 +249,12 @@ static inline uint32_t hs_hash6432shift(uint64_t key, unsigned int order)
 					return HASHTABLE_SUCCESS;                                                                                                                 \
 				} else {                                                                                                                                          \
 					/* Now we must try to swap some entries */                                                                                                \
-					free_pos = find_closer_entry_##name(table, free_pos);                                                                                     \
+					uint32_t closer_pos = find_closer_entry_##name(table, free_pos);                                                    \
+					if (closer_pos == 0xffffffff) {                                                                                     \
+						/* The slot vacated by the previous swap is free again, it must not keep the moved key. */                  \
+						table[free_pos].key = (type)HASHTABLE_INVALIDENTRY;                                                         \
+					}                                                                                                                   \
+					free_pos = closer_pos;                                                                                              \
 					free_distance = wrap_pos##name(free_pos - hash_pos);                                                                                      \
 				}                                                                                                                                                 \
 			} while (free_pos != 0xffffffff);                                                                                                                         \
